@@ -201,6 +201,11 @@ class Gen:
                 area = self.session_cmd(0x21)
                 encp = b"\x00\x03\x01\x02\x03" + self.rest_after_first(tab["cp"])
                 out.append(("decrypt", self.mk_command(0x8002, cc, hv[0], len(area).to_bytes(4, "big") + area, encp)))
+                if not minimal:
+                    # the decrypt attribute on the second / third session only
+                    for label, attrs in (("decrypt-2nd", (0x01, 0x21)), ("decrypt-3rd", (0x01, 0x01, 0x21))):
+                        area = b"".join(self.session_cmd(a) for a in attrs)
+                        out.append((label, self.mk_command(0x8002, cc, hv[0], len(area).to_bytes(4, "big") + area, encp)))
             except NotImplementedError:
                 pass
         return out
@@ -226,6 +231,9 @@ class Gen:
                 area = self.session_rsp(0x41)
                 encp = b"\x00\x03\x01\x02\x03" + self.rest_after_first(tab["rp"])
                 out.append(("encrypt", True, self.mk_response(0x8002, 0, hv[0] + len(encp).to_bytes(4, "big") + encp + area)))
+                if not minimal:
+                    area = self.session_rsp(0x01) + self.session_rsp(0x41)
+                    out.append(("encrypt-2nd", True, self.mk_response(0x8002, 0, hv[0] + len(encp).to_bytes(4, "big") + encp + area)))
             except NotImplementedError:
                 pass
         return out
